@@ -32,6 +32,7 @@ type Engine struct {
 	mapTables   map[string]map[int64]*ssa.Function // immutable global map[int]func tables
 	ifaceImpl   map[string][]*ssa.Function         // "Iface.method" -> implementations in package
 	loadSeconds float64
+	repo        string
 }
 
 type modEdge struct{ from, to *ssa.Function }
@@ -71,7 +72,7 @@ func loadEngine(repo string, contractPath string) (*Engine, error) {
 	}
 	prog, spkgs := ssautil.AllPackages(pkgs, ssa.NaiveForm|ssa.GlobalDebug)
 	prog.Build()
-	e := &Engine{prog: prog, pkg: spkgs[0], tp: pkgs[0].Types, fset: pkgs[0].Fset, funcs: map[string]*ssa.Function{}}
+	e := &Engine{prog: prog, pkg: spkgs[0], tp: pkgs[0].Types, fset: pkgs[0].Fset, funcs: map[string]*ssa.Function{}, repo: repo}
 	if e.pkg == nil {
 		return nil, fmt.Errorf("no ssa package")
 	}
